@@ -21,6 +21,7 @@ type specEnv struct {
 	nq      int
 	depth   int
 	prev    *State // state at the head of the current loop iteration, for prev(...) in step clauses
+	prevNames map[string]Val
 }
 
 func (x *Exec) specEnv(st, old *State, names map[string]Val, pkgPath string) *specEnv {
@@ -535,7 +536,18 @@ func (e *specEnv) call(s *SExpr) Val {
 		if e.prev == nil {
 			e.fail("prev() is only available in a loop's step clause")
 		}
-		sub := &specEnv{x: x, st: e.prev, old: e.old, names: e.names, pkgPath: e.pkgPath, pos: e.pos}
+		nm := e.names
+		if e.prevNames != nil {
+			// loop counters (idxN, the range key, seenN ...) have their head-of-iteration values too
+			nm = map[string]Val{}
+			for k, v := range e.names {
+				nm[k] = v
+			}
+			for k, v := range e.prevNames {
+				nm[k] = v
+			}
+		}
+		sub := &specEnv{x: x, st: e.prev, old: e.old, names: nm, pkgPath: e.pkgPath, pos: e.pos}
 		return sub.value(args[0])
 	case "len":
 		v := argv(0)
@@ -688,6 +700,43 @@ func (e *specEnv) call(s *SExpr) Val {
 		vs := vc.mapVal(m, k.T)
 		first := vc.slIndex(vs, vc.intLit(0))
 		return Val{T: ite(and(vc.mapDom(m, k.T), vc.cmp(">", vc.slLen(vs), vc.intLit(0), true)), first.T, "str_empty"), Sort: "Str", GoT: types.Typ[types.String]}
+	case "sprintf":
+		// sprintf(format, args...): the value the code's own fmt.Sprintf(format, args...) denotes (the same uninterpreted
+		// function of the format and the boxed arguments)
+		if len(args) < 1 {
+			e.fail("sprintf(format, args...)")
+		}
+		anyT := types.NewInterfaceType(nil, nil)
+		slT := types.NewSlice(anyT)
+		srt := vc.sortOf(slT)
+		inf := vc.info(srt)
+		arr := vc.constArr(vc.intSort(), inf.Elem)
+		n := int64(0)
+		for i := 1; i < len(args); i++ {
+			av := argv(i)
+			if t, ok := av.GoT.(types.Type); !ok || t == nil {
+				switch av.Sort {
+				case "Str":
+					av.GoT = types.Typ[types.String]
+				case "Bool":
+					av.GoT = types.Typ[types.Bool]
+				default:
+					e.fail("sprintf: the Go type of argument %d is not known (boxing depends on it)", i)
+				}
+			}
+			bv := x.convertTo(e.st, av, anyT)
+			arr = fmt.Sprintf("(store %s %s %s)", arr, vc.intLit(n), bv.T)
+			n++
+		}
+		isnil := "false"
+		if n == 0 {
+			isnil = "true"
+		}
+		packed := Val{T: vc.mkSlice(srt, arr, vc.intLit(n), isnil), Sort: srt, GoT: slT}
+		f := argv(0)
+		name := "uf_fmt_Sprintf_0_" + sanitize(strings.Join([]string{f.Sort, packed.Sort}, "_"))
+		vc.declFun(name, []string{f.Sort, packed.Sort}, "Str")
+		return Val{T: fmt.Sprintf("(%s %s %s)", name, f.T, packed.T), Sort: "Str", GoT: types.Typ[types.String]}
 	case "libfn":
 		// libfn("pkg.Func", resultIndex, args...): the uninterpreted function standing for a pure library function
 		if len(args) < 2 || args[0].Op != "str" || args[1].Op != "int" {
